@@ -192,7 +192,7 @@ type vfC02Rep struct {
 	gotJ, gotL, gotJ2 bool
 }
 
-func vfC02Plan(s *Serf, tag string, j, l, j2 LamportTime, hasLeave, down, rejoin bool) *vfC02Rep {
+func vfC02Plan(s *Serf, tag string, j, l, j2 LamportTime, hasLeave, down, rejoin, coarse bool) *vfC02Rep {
 	r := &vfC02Rep{s: s, j: j, l: l, j2: j2, down: down, rejoin: rejoin}
 	r.nnotes = 1
 	if down {
@@ -201,14 +201,21 @@ func vfC02Plan(s *Serf, tag string, j, l, j2 LamportTime, hasLeave, down, rejoin
 			r.nnotes = 3
 		}
 	}
-	// position p: delivered after p notifications; nnotes+1: lost
-	r.pj = vfChoice(tag+".posJ", r.nnotes+2)
+	// position p: delivered after p notifications; nnotes+1: lost. A coarse plan delivers late (after all
+	// notifications) or never.
+	pos := func(name string) int {
+		if coarse {
+			return r.nnotes + vfChoice(tag+name, 2)
+		}
+		return vfChoice(tag+name, r.nnotes+2)
+	}
+	r.pj = pos(".posJ")
 	r.pl, r.pj2 = r.nnotes+1, r.nnotes+1
 	if hasLeave {
-		r.pl = vfChoice(tag+".posL", r.nnotes+2)
+		r.pl = pos(".posL")
 	}
 	if rejoin {
-		r.pj2 = vfChoice(tag+".posJ2", r.nnotes+2)
+		r.pj2 = pos(".posJ2")
 	}
 	r.gotJ, r.gotL, r.gotJ2 = r.pj <= r.nnotes, r.pl <= r.nnotes, r.pj2 <= r.nnotes
 	// order of intents that share a position (only a choice when two do)
@@ -281,7 +288,7 @@ func vfC02Sync(from, to *Serf) {
 //
 //vf:unwind 16
 //vf:paths quick=400000 thorough=6000000
-//vf:bound scenario 2 replicas, 1 subject; quick: join, optional leave, optional down, optional state sync before the down; thorough: additionally re-join after down; each intent delivered <=1x per replica at any point, lost at most at one replica; 2 final sync rounds; times symbolic (j < l < j2 < 2^62)
+//vf:bound scenario 2 replicas, 1 subject; quick: join, optional leave, optional down, optional state sync before the down; thorough: additionally re-join after down (then the second replica receives each intent after all notifications or never); each intent delivered <=1x per replica at any point, lost at most at one replica; 2 final sync rounds; times symbolic (j < l < j2 < 2^62)
 //vf:stub codec -> identity on tokens
 //vf:outside more than two replicas; duplicate delivery to the same replica (covered as a step by VfC02_StepIntent); memberlist notifications out of causal order
 func VfC02_Sync2() {
@@ -296,8 +303,10 @@ func VfC02_Sync2() {
 	if down && vfTier() == 1 {
 		rejoin = vfBool("rejoin")
 	}
-	ra := vfC02Plan(a, "a", LamportTime(j), LamportTime(l), LamportTime(j2), hasLeave, down, rejoin)
-	rb := vfC02Plan(b, "b", LamportTime(j), LamportTime(l), LamportTime(j2), hasLeave, down, rejoin)
+	// with a re-join there are three intents and four delivery points: replica b then only gets each intent late
+	// or never (260 000 paths in 50 min did not finish the full product)
+	ra := vfC02Plan(a, "a", LamportTime(j), LamportTime(l), LamportTime(j2), hasLeave, down, rejoin, false)
+	rb := vfC02Plan(b, "b", LamportTime(j), LamportTime(l), LamportTime(j2), hasLeave, down, rejoin, rejoin)
 	// loss is recovered by state sync only if somebody has the information
 	vfAssume(ra.gotJ || rb.gotJ)
 	vfAssume(!hasLeave || ra.gotL || rb.gotL)
